@@ -15,7 +15,7 @@ import (
 )
 
 type writeSite struct {
-	call   ssa.CallInstruction
+	call   ssa.Instruction
 	method string      // WriteString / WriteByte / WriteRune
 	sb     ssa.Value   // the builder
 	format string      // constant text or Sprintf format ("" when neither)
@@ -126,6 +126,28 @@ func writeSites(fn *ssa.Function) []writeSite {
 		}
 		out = append(out, ws)
 	}
+	// A function that builds its text in a builder may return a directly formatted string
+	// on some path (`if !x { return v + "\n" }`): that return is a write of the whole text.
+	if len(out) > 0 {
+		res := fn.Signature.Results()
+		if res.Len() >= 1 && types.Identical(res.At(0).Type(), types.Typ[types.String]) {
+			for _, r := range returnsOf(fn) {
+				if len(r.Results) == 0 {
+					continue
+				}
+				v := r.Results[0]
+				ws := writeSite{call: r, method: "Return", arg: v}
+				if f, ops, ok := sprintfOf(v); ok {
+					ws.format, ws.args, ws.isFmt = f, ops, true
+				} else if f, ops, ok := concatTemplate(v); ok {
+					ws.format, ws.args, ws.isFmt = f, ops, true
+				} else {
+					continue
+				}
+				out = append(out, ws)
+			}
+		}
+	}
 	sort.SliceStable(out, func(i, j int) bool { return out[i].call.Pos() < out[j].call.Pos() })
 	return out
 }
@@ -201,7 +223,10 @@ func (c *Ctx) sitesDepth(fn *ssa.Function, depth int, onStack map[*ssa.Function]
 		if ws.cond.unknown {
 			ws.cond = mkDNF(pc.Must(ws.call.Block()))
 		}
-		out = append(out, c.splitPhiOperand(fn, ws)...)
+		for _, sp := range c.splitPhiOperand(fn, ws) {
+			foldConstOperands(&sp)
+			out = append(out, sp)
+		}
 	}
 	if depth >= inlineDepth {
 		return out
@@ -247,6 +272,7 @@ func (c *Ctx) sitesDepth(fn *ssa.Function, depth int, onStack map[*ssa.Function]
 				sc.cs = append(sc.cs, n)
 			}
 			ns.cond = andDNF(callCond, sc)
+			foldConstOperands(&ns)
 			out = append(out, ns)
 		}
 	}
@@ -485,4 +511,40 @@ func verbSpan(format string, i int) (int, int) {
 		p = q
 	}
 	return -1, -1
+}
+
+// foldConstOperands substitutes operands that are constants into the format, so that
+// Sprintf("\t%s\n", "step_end"), "\t" + "step_end" + "\n" and "\tstep_end\n" are one shape.
+func foldConstOperands(ws *writeSite) {
+	if !ws.isFmt {
+		return
+	}
+	for i := 0; i < len(ws.argT); {
+		start, end := verbSpan(ws.format, i)
+		if start < 0 {
+			return
+		}
+		verb := ws.format[start:end]
+		t := ws.argT[i]
+		text, ok := "", false
+		if verb == "%s" && strings.HasPrefix(t, `"`) {
+			if u, err := strconv.Unquote(t); err == nil {
+				text, ok = u, true
+			}
+		}
+		if verb == "%d" {
+			if _, err := strconv.Atoi(t); err == nil {
+				text, ok = t, true
+			}
+		}
+		if !ok {
+			i++
+			continue
+		}
+		ws.format = ws.format[:start] + strings.ReplaceAll(text, "%", "%%") + ws.format[end:]
+		ws.argT = append(append([]string{}, ws.argT[:i]...), ws.argT[i+1:]...)
+		if i < len(ws.args) {
+			ws.args = append(append([]ssa.Value{}, ws.args[:i]...), ws.args[i+1:]...)
+		}
+	}
 }
